@@ -26,6 +26,9 @@ func checkC07(c *Ctx) {
 	r := c.R
 	const lib = "pkg/station/lib"
 	f := c.fn("C07.1", lib, "RegistrationManager", "ingestRegistration")
+	checkProbeVerdict(c)
+	// ---- C07.10 the covert that passed the policy is the covert the registration keeps
+	checkCovertWriters(c, "C07.10")
 	r.Rule("C07.1", "AddRegistration is dominated by every admission condition", 5)
 	r.Rule("C07.2", "liveness probe only when required, never bypassed when required", 3)
 	// the manager's PhantomIsLive is a pass-through of the tester's verdict for the same address and port
@@ -550,4 +553,47 @@ func checkFamilyRejection(c *Ctx, rule string) {
 		})
 	}
 
+}
+
+// checkProbeVerdict (C07.9): "the phantom did not answer the liveness probe" - the probe reports "not live" only when
+// no attempt reported before the deadline or the reported outcome is a timeout; any other outcome (a completed
+// handshake, a refusal, an unreachable answer) is an answer.
+func checkProbeVerdict(c *Ctx) {
+	r := c.R
+	r.Rule("C07.9", "the probe answers 'not live' only on silence: no report before the deadline, or a timeout", 1)
+	f := c.fn("C07.9", "pkg/station/liveness", "", "phantomIsLive")
+	if f == nil {
+		return
+	}
+	n := 0
+	eachInstr(f, func(in ssa.Instruction) {
+		ret, ok := in.(*ssa.Return)
+		if !ok || len(ret.Results) != 2 || ret.Block().Comment == "recover" {
+			return
+		}
+		cv, isC := constOf(returnedValue(ret, 0, nil))
+		if !isC {
+			n++
+			r.Bad("C07.9", "phantomIsLive: computed verdict", ret.Pos(), fnName(f), "the verdict "+firstN(pathOf(ret.Results[0]), 50)+" is not a constant under a decided condition")
+			return
+		}
+		if cv.String() != "false" {
+			return
+		}
+		n++
+		g := guardedM(f, ret, func(cnd string, pol bool) bool {
+			switch {
+			case strings.HasPrefix(cnd, "(0 == select:") && strings.HasSuffix(cnd, "#0)"):
+				return !pol // the default case of the non-blocking receive: nothing reported before the deadline
+			case strings.HasSuffix(cnd, ".(net.Error)#0.Timeout()"):
+				return pol
+			}
+			return false
+		})
+		r.Check(g, "C07.9", "phantomIsLive: 'not live' only when nothing was reported or the report is a timeout", ret.Pos(), fnName(f), "guarded by the select default or net.Error.Timeout()",
+			"the probe reports 'not live' for an outcome that is an answer (a refused or unreachable connection comes back before the deadline because a host is there): the registration is admitted and announced although its phantom address is in use")
+	})
+	if n == 0 {
+		r.Unk("C07.9", "phantomIsLive: not-live returns", f.Pos(), fnName(f), "no return of a false verdict found")
+	}
 }
